@@ -12,7 +12,7 @@ Print Assumptions C19_scoping.
 
 (* separators (white space) between two messages do not change the tokens *)
 Theorem C19_separator : forall alnum ws, Forall (fun b => is_ws b = true) ws ->
-  forall f st s off, lex_from alnum (length ws + f) st (ws ++ s) off = lex_from alnum f st s (off + length ws)%nat.
+  forall f st s off, lex_from alnum (length ws + f) st (ws ++ s) off = lex_from alnum f st s (off + Z.of_nat (length ws)).
 Proof. exact lex_skip_whitespace. Qed.
 Print Assumptions C19_separator.
 
